@@ -4,10 +4,11 @@ from vlib import *
 import miniproto_gen as G
 
 ID = "C02"
-COQ_FILES = G.COQ_MODEL_FILES + ["Proofs/LowerNames.v", "Props/C02.v"]
+COQ_FILES = G.COQ_MODEL_FILES + ["Proofs/LowerNames.v", "Proofs/Link.v", "Props/C02.v"]
 PROPS = "Props/C02.v"
 THEOREMS = ["C02_json_name_eq_protoc", "C02_map_entry_name_eq_protoc", "C02_oo_name_total", "C02_oo_name_is_synth",
-            "C02_process_p3opt_total", "C02_synthetic_oneof_names_fresh", "C02_synthetic_oneof_names_eq_protoc"]
+            "C02_process_p3opt_total", "C02_synthetic_oneof_names_fresh", "C02_synthetic_oneof_names_eq_protoc",
+            "C02_resolved_type_absolute", "C02_resolved_extendee_absolute", "C02_resolved_rpc_absolute"]
 AXIOMS_OK = []
 TRUSTED = [
     "protoc is not available: its descriptors are specified by Model/ProtocDescriptor.v (ToJsonName, MapEntryName, GenerateSyntheticOneofs) and "
@@ -122,6 +123,12 @@ def run(ctx):
                 "accepted near-valid mutants; distinct = distinct string / canonical source text; a program case is non-trivial when it compiled "
                 "(its descriptors are compared field by field with the mirror and with the protoc specification)" % ctx.budget(5, 7))
 
+    ctx.extra["rule_families"] = {
+        "F3 naming functions (JSONName, MapEntry, synthetic oneof names)": "theorem + oracle",
+        "F5 construction of the descriptor from the source tree (order of fields / nested types / oneofs, labels, map entries, groups, proto3_optional)": "oracle + protoc-made goldens only",
+        "type name rewriting to absolute names, MESSAGE vs ENUM": "oracle + goldens only (resolution itself: C15)",
+        "default values (integers, bool, string, bytes escaping, enum)": "oracle + goldens only (escaping: C26)",
+    }
     # 3. the protoc-made goldens: the specification and the mirror, run on the sources, must reproduce protoc's descriptors
     goldens, skipped = G.load_goldens(ctx, REPO)
     gterms_m, gterms_s = [], []
